@@ -21,7 +21,10 @@ RULE = ("two independent scripts (client->peer, peer->client): 0..8 chunks with 
         "non-trivial = at least one chunk is partially accepted or an error / EOF occurs; distinct = distinct script; "
         "through the real endpoint, per transport: echo tunnels of 0..1000000 bytes; the ends of a tunnel: the client ends first and the destination answers afterwards, the destination ends first and the client "
         "uploads afterwards, both at once (all bytes and a clean end on both sides), the destination resets its connection after M bytes (the client must see a failure, not an end of stream), "
-        "the client's connection / stream is reset (the endpoint must let go of the destination)")
+        "the client's connection / stream is reset (the endpoint must let go of the destination), also while the tunnel is back-pressured: the destination leaves its socket unread for 3 s, "
+        "the client uploads until nothing more is taken from it and fails then, the destination reads on (what it receives is the beginning of what the client sent, and the endpoint must "
+        "let go of the destination once that has been delivered); an HTTP/3 client whose request stream alone was reset must not be shown a clean end of the download, "
+        "the destination not having ended its stream")
 
 
 def gen_cases(rng, ctx):
@@ -55,6 +58,7 @@ def gen_cases(rng, ctx):
                 ends += [(proto, scen, 1, 1), (proto, scen, 300000, 200000), (proto, scen, 70000, 0) if scen != 1 else (proto, scen, 0, 70000)]
         ends.append((proto, 3, 0, 5000))
         ends.append((proto, 4, 5000, 0))
+        ends.append((proto, 5, 0, 0))
         if thorough:
             ends += [(proto, 3, 1000, 100000), (proto, 4, 100000, 0)]
     for proto, scen, n, m in ends:
@@ -72,6 +76,8 @@ ENDS = {
     2: ("both-at-once", "the client uploads %(n)d bytes and ends while the destination sends %(m)d bytes and ends"),
     3: ("destination-reset", "the destination sends %(m)d bytes and then resets its connection (RST)"),
     4: ("client-reset", "the client uploads %(n)d bytes and then fails (HTTP/1.1, HTTP/2: its TCP connection is reset; HTTP/3: RESET_STREAM), the destination keeps its side open"),
+    5: ("client-reset-under-back-pressure", "the destination does not read for 3 s, the client uploads until nothing more is taken from it and then fails (HTTP/1.1, HTTP/2: its TCP connection is reset; "
+        "HTTP/3: RESET_STREAM), the destination then reads on and keeps its side open"),
 }
 
 
@@ -89,7 +95,7 @@ def judge_ends(case, impl, ctx):
     for both peers once both directions have ended; a failure of either side tears the tunnel down: it neither looks like an end of
     stream to the other peer nor leaves the other direction standing."""
     m = case.meta
-    status, up_got, up_same, up_end, down_got, down_same, down_end, released, waited = untok(impl.split()[0])
+    status, up_got, up_same, up_end, down_got, down_same, down_end, released, waited, uploaded = untok(impl.split()[0])
     what = "HTTP/%s tunnel through the real endpoint, %s" % ({1: "1.1", 2: "2", 3: "3"}[m["proto"]], ENDS[m["scen"]][1] % m)
     if status != 200:
         return [("disagree", "%s: CONNECT answered %d" % (what, status))]
@@ -110,12 +116,26 @@ def judge_ends(case, impl, ctx):
         if down_end == 0:
             return [("violation", "%s: the client received %d bytes and then neither an end nor a failure within 10 s" % (what, down_got))]
         return []
-    if up_got != m["n"]:
+    # the client failed: whatever reached the destination is the beginning of what the client sent (checked above), and the tunnel is
+    # torn down: the endpoint lets go of the destination instead of passing an end of stream on and keeping the other direction standing
+    if m["scen"] == 4 and up_got != m["n"]:
         return [("disagree", "%s: %d bytes reached the destination before the client failed" % (what, up_got))]
+    if m["scen"] == 5:
+        what += " (the client handed %d bytes to its transport)" % uploaded
+        if uploaded == 0:
+            return [("disagree", "%s: the tunnel took no byte at all" % what)]
+    # a clean end is for a tunnel both directions of which have ended: the destination has not ended its stream (it keeps its side open),
+    # so the client must not be shown the end of the download (HTTP/1.1, HTTP/2: the client's connection is gone, it is shown nothing)
+    if down_end == 1:
+        return [("violation", "%s: the client is shown a clean end of the download after %d bytes, although the destination has not ended its stream: the tear-down of the tunnel "
+                 "is passed on to the client as if the destination had finished" % (what, down_got))]
     if released == 2:
         ctx.setdefault("skipped_env", []).append(case.kind)
         return []
     if released == 0:
+        if m["scen"] == 5 and up_end:
+            return [("violation", "%s: the destination saw %s after %d bytes, and %d ms later the endpoint still holds its connection to the destination open: "
+                     "the client's failure is passed on as the end of its upload and the tunnel is not torn down" % (what, ends[up_end], up_got, waited))]
         return [("violation", "%s: %d ms after the client failed the endpoint still holds its connection to the destination open (the destination saw %s): the tunnel is not torn down"
                  % (what, waited, ends[up_end] if up_end else "nothing"))]
     return []
